@@ -295,6 +295,22 @@ func c02ConstExprSources() []c02Src {
 		"Add(9223372036854775807, 1)", "Inc(-1)", "Inc(1) == 2", "not IsPos(0)", "IsPos(Inc(0)) and B"} {
 		out = append(out, c02Src{"const-expr", s})
 	}
+	// several calls of one ConstExpr function in one expression, with argument lists that differ only in
+	// type or in where one string ends and the next begins (a cache of results keyed by a rendering of the
+	// arguments must not identify them)
+	alike := []string{"1", `"1"`, "1.0", "2", "2.0", `"2"`, "true", `"true"`, "nil", `"<nil>"`, "1.5", `"1.5"`, "[1, 2]", `"[1 2]"`, `"a b"`, `["a", "b"]`, `["a b"]`, "-1", `"-1"`, "{a: 1}", `"map[a:1]"`}
+	for i, a := range alike {
+		for j, b := range alike {
+			if i < j && (j-i <= 2 || (i*7+j)%5 == 0) {
+				out = append(out, c02Src{"const-expr repeated", fmt.Sprintf("[Id(%s), Id(%s)]", a, b)}, c02Src{"const-expr repeated", fmt.Sprintf("Id(%s) == Id(%s)", b, a)})
+			}
+		}
+	}
+	for _, s := range []string{`Concat("a", "b c") + "|" + Concat("a b", "c")`, `Concat("", "ab") + Concat("a", "b") + Concat("ab", "")`, `[Concat("a ", "b"), Concat("a", " b")]`,
+		`[Fast(1, 2), Fast("1", "2"), Fast("1 2")]`, `[Fast(), Fast(nil), Fast("")]`, `[Fast([1, 2]), Fast(1, 2)]`, "[Sum(1, 2), Sum(12), Sum(1, 2)]", "[Sum(), Sum(0)]", "Add(1, 2) + Add(1, 2)", "[Add(1, 2), Add(12, 0), Add(2, 1)]",
+		"[Inc(1), Inc(1), Inc(2)]", "[Half(1), Half(1.0), Half(2)]", "[IsPos(1), IsPos(-1), IsPos(1)]", "[GI8(1), GU8(1), GF32(1), GF64(1), GI(1)]", "Id(Id(1)) == Id(1)", `[Id(1), Id(Id("1"))]`} {
+		out = append(out, c02Src{"const-expr repeated", s})
+	}
 	return out
 }
 
